@@ -156,7 +156,15 @@ func (t *tsConn) write(b []byte, dst netip.AddrPort) (time.Time, error) {
 	if err != nil {
 		return time.Time{}, err
 	}
+	// ReadTXTimestamp goes through RawConn.Read, which honours (and fails on) a
+	// read deadline left behind by an earlier read of this socket
+	t.c.SetReadDeadline(time.Time{})
 	ts, _, err := udp.ReadTXTimestamp(t.c)
+	for try := 0; err != nil && try < 50; try++ {
+		// the error queue is polled for 1 ms only; under load the timestamp may be late
+		time.Sleep(200 * time.Microsecond)
+		ts, _, err = udp.ReadTXTimestamp(t.c)
+	}
 	if err != nil {
 		return time.Time{}, fmt.Errorf("no kernel tx timestamp: %w", err)
 	}
